@@ -25,7 +25,7 @@ EXPLANATION = (
     "`*slot = malloc(..); if (!*slot)` as tested, and only reports feasible paths (branch outcomes about "
     "the sign of an unmodified local or the value of an unmodified lvalue must not contradict each "
     "other); R1.status accepts a status that is lost on a path which itself returns a failure constant. "
-    "(6) a member released on a failure path is reset before the object is used or destroyed again (R27, library-wide: free/close/fclose/munmap or a function that frees its parameter, the member given directly or through a local copy that can still be current). (7) R1.sticky for objects that carry their own status member (the RLE encoder): after a void helper that can record a failure there, no constant success return is reached without reading the member. (7) carquet_column_read_batch executed with the page loader hooked to fail, in its peek form (whose result the batch reader discards) and as a real read: nothing is delivered and values_remaining is unchanged, so the failure surfaces at the next real read instead of becoming `column exhausted, success`. Decides these clauses; a NULL result that is tolerated rather than dereferenced is not decided.")
+    "(6) a member released on a failure path is reset before the object is used or destroyed again (R27, library-wide: free/close/fclose/munmap or a function that frees its parameter, the member given directly or through a local copy that can still be current). (7) R1.sticky for objects that carry their own status member (the RLE encoder): after a void helper that can record a failure there, no constant success return is reached without reading the member. (7) carquet_column_read_batch executed with the page loader hooked to fail, in its peek form (whose result the batch reader discards) and as a real read: nothing is delivered and values_remaining is unchanged, so the failure surfaces at the next real read instead of becoming `column exhausted, success`. (8) carquet_page_writer_finalize executed on a page buffer that still holds 99 stale bytes (the state a failed attempt leaves behind): the page it emits is header plus body only, so a flush retried by close after an allocation failure does not append a second header behind the first (rule shared with C05). Decides these clauses; a NULL result that is tolerated rather than dereferenced is not decided.")
 
 ALLOC_EXT = {"malloc", "calloc", "realloc", "strdup", "strndup", "aligned_alloc", "posix_memalign"}
 
@@ -123,6 +123,8 @@ def run(ctx):
 
     from ..rules import allocfail
     nf = allocfail.check(ctx, fns)
+    ctx.clause("C19.8 a page finalize retried after a failure starts from an empty page buffer (what the failed attempt left is not part of the page)")
+    ctx.floor("C19 writer configurations through a retried finalize", _retried_finalize(ctx), 24)
     ctx.clause("C19.7 a page load that fails inside carquet_column_read_batch (peek or read) delivers nothing and leaves the count of undelivered values unchanged")
     ctx.floor("C19 failed-load call forms", _failed_load_keeps_rows(ctx), 2)
     ctx.clause("C19.6 a member released on a failure path is reset before the object is used or destroyed again (rule shared with C07.5)")
@@ -229,4 +231,24 @@ def _failed_load_keeps_rows(ctx):
         return done
     except (sem.Inconclusive, KeyError) as ex:
         ctx.inconclusive("R1.fail-state", key, P.where(fn.body), what, "%s: %s" % (type(ex).__name__, ex))
+        return 0
+
+
+def _retried_finalize(ctx):
+    """A finalize that failed half-way (its header already in the page buffer, the body's allocation refused) is retried by the
+    next flush or by close: the retry must start from an empty page buffer. Shared with C05: carquet_page_writer_finalize
+    executed over 48 writer configurations on a page buffer that still holds bytes of an earlier attempt."""
+    from ..rules import sem
+    from . import C05
+    P = ctx.P
+    fin = P.fn("carquet_page_writer_finalize", C05.PW)
+    key = "retry-finalize|%s:carquet_page_writer_finalize" % C05.PW
+    what = "a finalize started on a page buffer that still holds bytes of an earlier (failed) attempt emits the header and the body only"
+    try:
+        verdicts, nconf = C05.finaliser_verdicts(P)
+        v = verdicts.get("page-bytes")
+        ctx.ob("R1.fail-state", key, P.where(fin.body), what + " (%d writer configurations)" % nconf, v is None, v or "")
+        return nconf
+    except (sem.Inconclusive, KeyError) as ex:
+        ctx.inconclusive("R1.fail-state", key, P.where(fin.body), what, "%s: %s" % (type(ex).__name__, ex))
         return 0
